@@ -41,7 +41,7 @@
 (***************************************************************************)
 EXTENDS Integers, Sequences, FiniteSets, TLC, Json, IOUtils
 
-CONSTANTS Profile,   \* "cmd" | "struct" | "hd" | "lex" | "word" | "wordall" | "soup"
+CONSTANTS Profile,   \* "cmd" | "struct" | "ctl" | "hd" | "lex" | "word" | "wordall" | "soup"
           MaxTok,    \* bound on the number of tokens of a derivation
           MaxUnits   \* bound on the number of units of a generated word (profiles word*)
 
@@ -680,13 +680,16 @@ Compatible(a, b) ==
 WordOK(us) == \A i \in 1..(Len(us) - 1) : Compatible(us[i], us[i + 1])
 
 Prof == Profile
+(* "ctl" and "hd": one command per list, so that nested compound commands  *)
+(* (and here-documents against every newline of them) fit a small bound    *)
+Skeleton == Prof \in {"ctl", "hd"}
 (* the bounds can be overridden from the environment (one cfg per profile) *)
 TokBound == IF "MAXTOK" \in DOMAIN IOEnv THEN NumOf(IOEnv.MAXTOK) ELSE MaxTok
 UnitBound == IF "MAXUNITS" \in DOMAIN IOEnv THEN NumOf(IOEnv.MAXUNITS) ELSE MaxUnits
 Lex == Prof = "lex"
-CmdW   == IF Lex THEN Words({"a", "export", "command", ":"}) ELSE Words({"a"})
+CmdW   == IF Lex THEN Words({"a", "export", "command"}) ELSE Words({"a"})
 KwW    == Words({"if", "{", "!", "done"})     \* reserved words where they are ordinary words
-ArgW   == IF Lex THEN Words({"b", "if", "}", "!", "x=~", "2", "in", "done"}) \cup {W(<<Sq("c d")>>)}
+ArgW   == IF Lex THEN Words({"b", "if", "}", "x=~", "2", "in"}) \cup {W(<<Sq("c d")>>)}
           ELSE Words({"b"})
 AsgW   == IF Lex THEN Words({"x=1", "x=", "x=~/a:~"}) \cup {W(<<Lit("y="), Raw("x")>>)} ELSE Words({"x=1"})
 HereDocs ==  \* (operator, delimiter, body)
@@ -718,20 +721,24 @@ Alts(sym) ==
   LET n == sym.s IN
   CASE n = "PROG" -> {<<NT("L")>>}
     [] n = "L" ->     \* list: last terminator optional
-         {<<NT("AO")>>, <<NT("AO"), SepTok, NT("L")>>, <<NT("AO"), Op("&"), NT("L")>>,
-          <<NT("AO"), Op("&")>>, <<NT("AO"), Op(";")>>}
+         IF Prof = "ctl" THEN {<<NT("AO")>>}
+         ELSE IF Prof = "hd" THEN {<<NT("AO")>>, <<NT("AO"), SepTok, NT("L")>>}
+         ELSE {<<NT("AO")>>, <<NT("AO"), SepTok, NT("L")>>, <<NT("AO"), Op("&"), NT("L")>>,
+               <<NT("AO"), Op("&")>>, <<NT("AO"), Op(";")>>}
     [] n = "CLT" ->   \* compound list in front of a reserved word: terminated
-         {<<LbTok, NT("AO"), NT("TERM")>>, <<LbTok, NT("AO"), NT("TERM"), NT("CLT1")>>}
+         IF Skeleton THEN {<<LbTok, NT("AO"), NT("TERM")>>}
+         ELSE {<<LbTok, NT("AO"), NT("TERM")>>, <<LbTok, NT("AO"), NT("TERM"), NT("CLT1")>>}
     [] n = "CLT1" -> {<<NT("AO"), NT("TERM")>>, <<NT("AO"), NT("TERM"), NT("CLT1")>>}
     [] n = "TERM" -> {<<SepTok>>, <<Op("&"), LbTok>>}
     [] n = "CLP" ->   \* compound list in front of `)` or a case terminator
          {<<LbTok, NT("L"), LbTok>>}
-    [] n = "AO" -> {<<NT("PL")>>, <<NT("PL"), Op("&&"), LbTok, NT("AO")>>, <<NT("PL"), Op("||"), LbTok, NT("AO")>>}
-    [] n = "PL" -> {<<NT("PC")>>, <<WL("!"), NT("PC")>>}
-    [] n = "PC" -> {<<NT("C")>>, <<NT("C"), Op("|"), LbTok, NT("PC")>>}
-    [] n = "C" -> IF Prof = "struct" THEN {<<WL("a")>>, <<NT("CC")>>, <<NT("FD")>>}
+    [] n = "AO" -> IF Skeleton THEN {<<NT("PL")>>}
+                   ELSE {<<NT("PL")>>, <<NT("PL"), Op("&&"), LbTok, NT("AO")>>, <<NT("PL"), Op("||"), LbTok, NT("AO")>>}
+    [] n = "PL" -> IF Skeleton THEN {<<NT("PC")>>} ELSE {<<NT("PC")>>, <<WL("!"), NT("PC")>>}
+    [] n = "PC" -> IF Prof = "ctl" THEN {<<NT("C")>>} ELSE {<<NT("C")>>, <<NT("C"), Op("|"), LbTok, NT("PC")>>}
+    [] n = "C" -> IF Prof \in {"struct", "ctl"} THEN {<<WL("a")>>, <<NT("CC")>>, <<NT("FD")>>}
                   ELSE IF Prof = "hd"     \* here-documents against every newline of the grammar
-                  THEN {<<WL("a")>>, <<WL("a"), HereOp("<<", <<Lit("b\n")>>), WL("E")>>, <<NT("CC")>>,
+                  THEN {<<WL("a")>>, <<HereOp("<<", <<Lit("b\n")>>), WL("E")>>, <<NT("CC")>>,
                         <<NT("CC"), HereOp("<<-", <<Lit("c\n")>>), WL("F")>>}
                   ELSE {<<NT("SC")>>, <<NT("CC")>>, <<NT("CC"), NT("RS")>>, <<NT("FD")>>}
     [] n = "RS" -> {<<NT("R")>>, <<NT("R"), NT("RS")>>}
@@ -766,13 +773,14 @@ Alts(sym) ==
     [] n = "PATS" -> {<<Op(")")>>} \cup {<<Op("|"), p, NT("PATS")>> : p \in Pats}
     [] n = "CB" -> {<<LbTok>>, <<NT("CLP")>>}
     [] n = "FD" -> {<<f, Op("("), Op(")"), LbTok, NT("CC")>> : f \in FuncNames}
-                   \cup (IF Prof = "struct" THEN {}
+                   \cup (IF Prof \in {"struct", "ctl"} THEN {}
                          ELSE {<<f, Op("("), Op(")"), LbTok, NT("CC"), NT("RS")>> : f \in FuncNames})
     (* profiles "word"/"wordall": one generated word in a syntactic position *)
     [] n = "WPROG" ->
-         {<<WL("echo"), NTW("WD0", <<>>)>>, <<NTW("WD0", <<Lit("x=")>>)>>, <<NTW("WD0", <<>>)>>}
+         {<<WL("echo"), NTW("WD0", <<>>)>>}
          \cup (IF Prof = "wordall"
-               THEN {<<WL("export"), NTW("WD0", <<Lit("x=")>>)>>,
+               THEN {<<NTW("WD0", <<Lit("x=")>>)>>, <<NTW("WD0", <<>>)>>,
+                     <<WL("export"), NTW("WD0", <<Lit("x=")>>)>>,
                      <<WL("cat"), Op("<"), NTW("WD0", <<>>)>>,
                      <<WL("case"), NTW("WD0", <<>>), WL("in"), WL("esac")>>,
                      <<WL("case"), WL("s"), WL("in"), Op("("), NTW("WD0", <<>>), Op(")"), WL("esac")>>,
@@ -837,8 +845,8 @@ SoupSmall ==
     WL("!"), WL("{"), WL("}"), WL("if"), WL("then"), WL("fi"), WL("for"), WL("in"),
     WL("do"), WL("done"), WL("case"), WL("esac"), BadTok("'a"), BadTok("${") }
 SoupTiny ==
-  { Op(";"), Op("|"), Op("("), Op(")"), Op("\n"), Op(">"), WL("a"), WL("!"), WL("{"), WL("}"),
-    WL("if"), WL("then"), WL("fi"), WL("do"), WL("done"), BadTok("$(a") }
+  { Op(";"), Op("|"), Op("("), Op(")"), Op("\n"), Op(">"), WL("a"), WL("{"), WL("}"),
+    WL("if"), WL("then"), WL("fi"), BadTok("$(a") }
 SoupAlphabet ==
   LET a == IF "SOUP" \in DOMAIN IOEnv THEN IOEnv.SOUP ELSE "full"
   IN IF a = "tiny" THEN SoupTiny ELSE IF a = "small" THEN SoupSmall ELSE SoupFull
